@@ -22,9 +22,9 @@ type replayInput struct {
 }
 
 type replayFile struct {
-	Harness string        `json:"harness"`
-	Inputs  []replayInput `json:"inputs"`
-	Events  []string      `json:"events"`
+	Harness string         `json:"harness"`
+	Inputs  []replayInput  `json:"inputs"`
+	Events  []string       `json:"events"`
 	Known   []string       `json:"known_enabled"`
 	Params  map[string]int `json:"params"`
 }
